@@ -15,6 +15,64 @@ CLAIMED = {
     note="Trusted: Coq kernel + vm_compute; hand-written model tied by differential runs (generator-bounded); python harness; "
          "CPython deque/Condition. Blocking wait path is covered under C11, not here. No axioms (all theorems closed).",
     technique="Coq proof by induction over operation histories + model/implementation correspondence by vm_compute"),
+ "C04": dict(category="proof", design_ref="7 (C04)",
+    text="22 Coq theorems (all closed) on an executable lock-machine model, for every state and unbounded histories with any number of proxies: "
+         "every request gets a reply; owner changes only by acquire-when-free / release-by-owner / force-release; denial has no effect; a call runs iff free or owner, "
+         "refused calls execute nothing; is_locked truthful; proxy return values and remembered token agree with the object; automatic tokens pairwise distinct, also across "
+         "same-named contexts. Tie: vm_compute correspondence on an exhaustive (state x action x token) table against the real _RpcThread handlers, exhaustive short and random "
+         "histories through real QMI_RpcProxy/QMI_RpcFuture, and real QMI_Contexts over loop-back TCP; independent oracle.",
+    note="Trusted: Coq kernel+vm_compute; hand-written model tied by differential runs (generator-bounded); harness stubs; distinct context instances draw distinct 64-bit nonces. "
+         "Sequential requests only (concurrency: C03). Five defects found by this check were repaired by fix: commits (see known_findings.json).",
+    technique="Coq case analysis + induction over operation histories; model/implementation correspondence by vm_compute"),
+ "C06": dict(category="proof", design_ref="7 (C06)",
+    text="14 Coq theorems (all closed, unbounded) on an executable model of _PeerTcpConnection framing/handshake/pending handling: segmentation invariance, exact in-order delivery, "
+         "containment of bad frames / handshake violations / forged addresses, exactly one error reply per pending request on close, no request left unanswered. Tie: the real class "
+         "under the real _SocketManager with a scripted socket, faults at every position x 5 segmentations, compared event by event with the model; independent oracle.",
+    note="Trusted: Coq kernel+vm_compute; hand model; harness (scripted socket, stub loop/router); pickle round trip assumed (deser is a Section variable); payload bytes the framing "
+         "layer never reads are length-preserving surrogates except in a literal sample; independence of other connections is checked by the oracle only.",
+    technique="Coq induction over frame lists and operation scripts; H1 differential run with fault injection"),
+ "C11": dict(category="proof", design_ref="7 (C11)",
+    text="8 Coq theorems (all closed) on a concurrent machine running the transcribed stop_task / wait_for_condition / get_next_signal / sleep / loop-task programs at "
+         "synchronisation granularity: once stop() has returned the task is never parked un-notified; a wait begun after stop never parks and raises; loop_finalize always runs; "
+         "exactly one outcome; progress needs neither time nor signals and is bounded (zero virtual time); no deadlock. Proved for executions of any length by reflection on the "
+         "finite reachable set (computed and checked closed by vm_compute). Tie: the real _TaskThread/QMI_Task/QMI_LoopTask/QMI_SignalReceiver run under a deterministic scheduler; "
+         "every schedule with <= 2 (quick) / 3 (thorough) preemptions is enumerated and its recorded synchronisation trace must be accepted step by step by the model with the same outcome.",
+    note="Trusted: Coq kernel+vm_compute; dsched (cooperative Lock/RLock/Condition/Event with monitor semantics - it defines what a schedule is); finite abstraction stated in the theorems "
+         "(queue empty/non-empty, one wait per run, time-outs fire only while parked); atomicity of code between two synchronisation operations of one thread.",
+    technique="finite-state reflection (closed reachable set) in Coq + schedule enumeration with trace acceptance"),
+ "C13": dict(category="proof", design_ref="7 (C13)",
+    text="13 Coq theorems (all closed; every oracle, state, terminator, count, timeout, call sequence) on an executable model of the TCP/UDP/serial buffered read loops with an "
+         "adversarial device oracle: byte conservation, read = exactly n, read_until = shortest terminated prefix, time-out consumes nothing, read_until_timeout <= n, closed transport "
+         "never touches the device, wrong-state open/close refused. Tie: per-call differential execution (results and the exact stand-in call list incl. settimeout arguments) of the "
+         "real QMI_TcpTransport/QMI_UdpTransport/QMI_SerialTransport with scripted socket/serial and a virtual clock; independent conservation/contract oracle.",
+    note="Trusted: Coq kernel+vm_compute; hand model; harness stand-ins (define what a device schedule is); TCP = FIFO stream, UDP datagrams <= 4096 bytes, pyserial read(k) <= k bytes. "
+         "Serial fuel sufficiency is checked per case, not proved. The UDP read_until_timeout defect found here was repaired (fix: commit).",
+    technique="Coq induction over fuel/oracle with a stream-conservation invariant; differential testing with scripted device"),
+ "C16": dict(category="proof", design_ref="7 (C16)",
+    text="16 Coq theorems (all closed; all texts, types and data): the comment scanner is exactly the regex language and cuts each line at its first '#' outside a string; duplicate keys "
+         "rejected; dump output is untouched by stripping; typed parse is total with located errors, strict (accept iff no offending item), and round-trips both ways up to the documented "
+         "int->float / list->tuple / defaults. Tie: generated documents and dynamically generated @configstruct classes (plus the shipped Cfg* structures) through the real functions, "
+         "compared with the model (result, exception class, item path); independent oracles.",
+    note="Trusted: Coq kernel+vm_compute; hand model; harness class builder/path reconstruction; json.loads/json.dumps and float(int) are Section variables (json round trip is a premise "
+         "of C16_dump_load only); the re engine is replaced by the scanner and compared on every case. _check_config_struct_type is not modelled. Two defects found were repaired.",
+    technique="structural induction over the type grammar; regex-language equivalence; differential testing"),
+ "C18": dict(category="proof", design_ref="7 (C18)",
+    text="20 Coq theorems (all closed, unbounded) on an executable model of the UDP packet codecs, a transcription of fnmatch.translate, the responder and the collector: pack/unpack round "
+         "trip incl. 63/64-byte names, exact unpack strictness, matcher sound and complete w.r.t. a declarative Glob relation, answers iff both filters match with echoed id/timestamp "
+         "and own name/workgroup/pid/port, junk ignored statelessly, collector = matching id and other name. Tie: real _UdpResponder._handle_read on a scripted socket, real "
+         "unpack_qmi_udp_packet, real ping_qmi_contexts/discover_peer_contexts on scripted socket/selector/clock; gmatch vs fnmatch.fnmatchcase differential.",
+    note="Trusted: Coq kernel+vm_compute; hand model; harness; fnmatch.fnmatchcase, strict UTF-8 and ctypes layout are transcribed and compared, not verified. The kill request is never "
+         "generated. Exceptions escaping the read callback count as 'ignored'. Real broadcast delivery is outside.",
+    technique="executable Gallina model + induction proofs + vm_compute correspondence + fnmatch differential"),
+ "C20": dict(category="proof", design_ref="7 (C20)",
+    text="16 Coq theorems (all closed, unbounded, arbitrary upper/lower functions) on an executable model of the ADbasic parser analysis and the AdwinProcess accessors: binding one-to-one "
+         "under case folding and equal to the recognised definitions; errors located at an offending definition and clashing definitions always rejected; _find_sequential_ranges = sorted "
+         "dedup input in maximal disjoint ranges; set_par_multiple/get_par_multiple succeed iff the single accesses do, with equal register file/result and exactly the bound registers "
+         "touched once. Tie: generated ADbasic programs (include files in a scratch dir), symbol lists, range inputs and op sequences over a simulated ADwin through the real code, "
+         "compared on symbols, binding or (file,line), results, exact call log and registers; independent oracles.",
+    note="Trusted: Coq kernel+vm_compute; hand model; harness (generator, FakeAdwin); CPython str.upper/lower on ASCII, re on 7 fixed patterns (modelled as scanners), os.path, int(). "
+         "ASCII identifiers, acyclic includes, values are opaque atoms.",
+    technique="Coq invariant and induction proofs over symbol lists; correspondence by vm_compute with a simulated ADwin"),
 }
 
 REASONS = {}
